@@ -324,6 +324,20 @@ def rt_arrays_and_planning(seed, n):
         build_and_plan('HeavenOrHell', lambda: hh.HeavenOrHell(coherence=c), dict(coherence=c))
     for ns in (2, 3, 8):
         build_and_plan('LoadUnload', lambda: lu.LoadUnload(nstates=ns), dict(nstates=ns))
+    # several models of one domain alive in ONE process, with different parameters over the same cells: the full per-call contract of each (the bounded
+    # tasks give every parameter setting its own process)
+    some = [lay for i, lay in enumerate(gl) if i % 7 == 0][:12]
+    for pm in ('one', 'half', 'open', 'zero', 'half', 'one-int', 'open', 'one'):
+        rp = S.run_concrete(h_gridworld, (some, pm), {}, rng=rnd)
+        for c in rp['checks']:
+            out.append(dict(name='rt:several-models-in-one-process:' + c['name'], ok=c['status'] == 'proved', detail=str(c.get('detail'))[:600],
+                            witness=dict(success_prob_mode=pm, inputs=rp.get('inputs'))))
+    somew = [lay for i, lay in enumerate(wl) if i % 11 == 0][:8]
+    for pm in ('one', 'half', 'open', 'zero', 'half'):
+        rp = S.run_concrete(h_windy, (somew, pm, False), {}, rng=rnd)
+        for c in rp['checks']:
+            out.append(dict(name='rt:several-models-in-one-process:' + c['name'], ok=c['status'] == 'proved', detail=str(c.get('detail'))[:600],
+                            witness=dict(wind_probability_mode=pm, inputs=rp.get('inputs'))))
     return out
 
 
